@@ -24,6 +24,7 @@ func init() {
 func runC16(c *core.Ctx) {
 	const pk = "pdf/pagetree"
 	defer rulePageNumberAdvance(c)
+	defer rulePageTreeReaders(c)
 	c.Check("C16-R1", pk+".(*Writer).mergeNodes", "/Kids, /Count, the node's page count and the children's /Parent come from one and the same child slice", func(o *core.Ob) {
 		fn := c.Prog.Func(pk, "(*Writer).mergeNodes")
 		g := fn.Graph()
@@ -404,5 +405,113 @@ func rulePageNumberAdvance(c *core.Ctx) {
 			})
 		}
 		o.Require(o.Evals >= 2, "calls to futureInt.Inc/Add not found")
+	})
+}
+
+// rulePageTreeReaders (C16-R6): on the reading side a page inherits
+// attributes only from its ancestors.  GetPage walks the tree and skips
+// whole subtrees that lie before the wanted page; it may take inheritable
+// attributes only from nodes it descends into, i.e. only where the node is
+// known to contain the page (skip < count).
+// The page-number callback of NextPageNumber concerns the NEXT page to be
+// added; where that page will be is only known when it is appended (a range
+// opened in between comes first), so NextPageNumber may queue the callback
+// or, on a closed writer, answer -1, and nothing else.
+func rulePageTreeReaders(c *core.Ctx) {
+	const pk = "pdf/pagetree"
+	c.Check("C16-R6", pk+".GetPage/ancestors-only", "inheritable attributes are collected only from nodes that contain the wanted page (dominated by skip < count), never from skipped siblings", func(o *core.Ob) {
+		fn := c.Prog.Func(pk, "GetPage")
+		g := fn.Graph()
+		info := fn.Info()
+		// the map that collects inherited values: the map stored into with a key taken from `inheritable`
+		n := 0
+		for _, v := range g.Vs {
+			as, ok := v.AST.(*ast.AssignStmt)
+			if !ok || len(as.Lhs) != 1 {
+				continue
+			}
+			ix, ok := ast.Unparen(as.Lhs[0]).(*ast.IndexExpr)
+			if !ok {
+				continue
+			}
+			m, isVar := core.ObjOf(info, ix.X).(*types.Var)
+			if !isVar {
+				continue
+			}
+			mt, isMap := m.Type().Underlying().(*types.Map)
+			if !isMap || !core.IsNamed(mt.Elem(), "pdf", "Object") {
+				continue
+			}
+			// local map created in this function (not the node dictionary read from the file)
+			created := false
+			for _, d := range core.AssignsTo(info, fn.Decl, m) {
+				if a2, ok := d.(*ast.AssignStmt); ok && len(a2.Rhs) == 1 {
+					switch r := ast.Unparen(a2.Rhs[0]).(type) {
+					case *ast.CompositeLit:
+						created = true
+					case *ast.CallExpr:
+						if id, ok := r.Fun.(*ast.Ident); ok && id.Name == "make" {
+							created = true
+						}
+					}
+				}
+			}
+			if !created {
+				continue
+			}
+			n++
+			o.Count(1)
+			o.At(fn.Site(as, "attribute taken over from a /Pages node"))
+			ok2 := g.GuardedBy(v, func(a core.Atom) bool {
+				cmp, isCmp := a.AsCmp()
+				if !isCmp {
+					return false
+				}
+				l, r := strings.ToLower(core.ExprStr(cmp.L)), strings.ToLower(core.ExprStr(cmp.R))
+				return (cmp.Op == token.LSS && l == "skip" && r == "count") || (cmp.Op == token.GTR && l == "count" && r == "skip")
+			})
+			if !ok2 {
+				o.FailAt(fn.Site(as, ""), "%s: an attribute of a /Pages node is recorded as inherited although the node may be a skipped sibling subtree (not dominated by skip < count)", c.Prog.Pos(as.Pos()))
+			}
+		}
+		o.Require(n >= 1, "GetPage does not collect inherited attributes")
+	})
+	c.Check("C16-R5", pk+".(*Writer).NextPageNumber/queued", "the callback for the next page's number is only queued (or answered with -1 on a closed writer); it is never resolved before the page is appended", func(o *core.Ob) {
+		fn := c.Prog.Func(pk, "(*Writer).NextPageNumber")
+		info := fn.Info()
+		cb := paramObj(fn, "cb")
+		if cb == nil && len(fn.Decl.Type.Params.List) == 1 && len(fn.Decl.Type.Params.List[0].Names) == 1 {
+			cb = info.Defs[fn.Decl.Type.Params.List[0].Names[0]]
+		}
+		uses := 0
+		ast.Inspect(fn.Decl.Body, func(n ast.Node) bool {
+			call, ok := n.(*ast.CallExpr)
+			if !ok {
+				return true
+			}
+			// direct call cb(x)
+			if core.ObjOf(info, call.Fun) == cb {
+				uses++
+				o.Count(1)
+				k, isK := core.IntConst(info, call.Args[0])
+				if !isK || k != -1 {
+					o.FailAt(fn.Site(call, ""), "%s: the callback is invoked with %s inside NextPageNumber", c.Prog.Pos(call.Pos()), c.Prog.Src(call.Args[0]))
+				}
+				return true
+			}
+			for _, a := range call.Args {
+				if core.ObjOf(info, a) != cb {
+					continue
+				}
+				uses++
+				o.Count(1)
+				if id, ok := call.Fun.(*ast.Ident); ok && id.Name == "append" {
+					continue
+				}
+				o.FailAt(fn.Site(call, ""), "%s: the callback is handed to %s before the next page exists: a range opened before that page shifts its number", c.Prog.Pos(call.Pos()), c.Prog.Src(call.Fun))
+			}
+			return true
+		})
+		o.Require(uses >= 2, "uses of the callback not found")
 	})
 }
